@@ -167,8 +167,29 @@ class View:
                 return True
         return any(self.exec_failed(c, ignore_interrupted_threads) for c in e.children)
 
+    def lazy_params_failed(self, e):
+        """The runner's unit of setup is the whole call `_setup_fixture(name)`: parameter resolution first, then the
+        function.  Resolving a parameter that is a per-thread fixture evaluates that fixture right there (first use
+        by the thread), BEFORE the `enter` record of `e`; a failure it records belongs to `e`'s setup call."""
+        if e.unit[0] != "fx" or e.unit[2] != "setup" or len(e.unit) != 3:
+            return False
+        fx = self.byprim.get(e.unit[1])
+        if not fx:
+            return False
+        params = set(fx.get("params") or [])
+        for q in reversed([x for x in self.execs if x.thread == e.thread and x.enter < e.enter and x.task == e.task]):
+            if q.end is None or q.end > e.enter or q.unit[0] != "fx" or q.unit[2] != "setup" or len(q.unit) != 3:
+                break
+            qfx = self.byprim.get(q.unit[1])
+            if not qfx or not qfx.get("per_thread"):
+                break
+            names = set(qfx.get("names") or [qfx["name"]])
+            if names & params and (q.end_kind != "exit" or self.exec_failed(q)):
+                return True
+        return False
+
     def clean(self, e):
-        return e.end_kind == "exit" and not self.exec_failed(e)
+        return e.end_kind == "exit" and not self.exec_failed(e) and not self.lazy_params_failed(e)
 
     def location_of_task(self, t):
         if t is None:
@@ -1138,6 +1159,16 @@ def c08(project, obs, view=None):
         if obs.get("pending_failure_at") is not None:
             why.append("event-handler-failure")
         if not why:
+            # a DISABLED dependency whose own task was skipped (its suite setup or one of its dependencies failed)
+            # hands that reason on to its dependents although it is reported "disabled": own signature (finding)
+            dd = [d for d in v.deps_closure(tp) if v.status(d) == "disabled"
+                  and v.task_of_path.get(("test", tuple(d))) is not None
+                  and obs["results"][v.task_of_path[("test", tuple(d))]][0] == "skipped"]
+            if dd:
+                out.append(F("C04/dependent-of-disabled-test-skipped",
+                             "%s skipped (%r) although all its dependencies are passed or disabled: the task of the disabled "
+                             "dependency %s was itself skipped and passed its reason on" % (".".join(tp), v.details(tp), ".".join(dd[0]))))
+                continue
             out.append(F("C08/skipped-without-cause", "%s skipped (%r) but no abort / failed dependency / failed setup explains it" % (".".join(tp), v.details(tp))))
     # the run is unsuccessful
     if (aborts or v.interrupt_at is not None) and obs["outcome"].get("returned") is True:
